@@ -18,6 +18,7 @@ from .pyexpr2coq import TranslationError
 SEARCH_ROOT = "autofit/non_linear/search"
 SEARCH_OUTPUT = "autofit/aggregator/search_output.py"
 ROOT_CLASS = "NonLinearSearch"
+ROOT_BASES = {"AbstractFactorOptimiser": "autofit/graphical/expectation_propagation/factor_optimiser.py", "ABC": None}
 
 
 def _cstr(s):
@@ -131,10 +132,41 @@ def _identifier_fields(cls):
     return None
 
 
+def root_base_args(repo, table):
+    """constructor parameters of the bases of NonLinearSearch: autoconf.dictable.get_arguments follows
+    `__bases__` while the class accepts **kwargs, so they are persisted keys too"""
+    root = table[ROOT_CLASS][0]
+    rs = _init_sig(root, table[ROOT_CLASS][1])
+    if rs is None or not rs["varkw"]:
+        return []
+    out = []
+    for b in _base_names(root):
+        if b not in ROOT_BASES:
+            raise TranslationError("%s has an unexpected base class %s" % (ROOT_CLASS, b))
+        rel = ROOT_BASES[b]
+        if rel is None:
+            continue   # abc.ABC: object.__init__, no named parameters
+        tree = ast.parse(open(os.path.join(repo, rel)).read())
+        cls = [n for n in tree.body if isinstance(n, ast.ClassDef) and n.name == b]
+        if len(cls) != 1:
+            raise TranslationError("%s not found in %s" % (b, rel))
+        if any(x not in ("ABC", "object") for x in _base_names(cls[0])):
+            raise TranslationError("%s has bases of its own" % b)
+        inits = [x for x in cls[0].body if isinstance(x, ast.FunctionDef) and x.name == "__init__"]
+        if len(inits) != 1:
+            raise TranslationError("%s.__init__ not found" % b)
+        a = inits[0].args
+        if a.kwarg is not None or a.vararg is not None or a.posonlyargs:
+            raise TranslationError("%s.__init__ takes *args/**kwargs" % b)
+        out += [x.arg for x in a.args[1:]] + [x.arg for x in a.kwonlyargs]
+    return out
+
+
 def search_classes(repo):
     table = _class_table(repo)
     if ROOT_CLASS not in table:
         raise TranslationError("%s not found" % ROOT_CLASS)
+    base_args = root_base_args(repo, table)
 
     def lineage(name, seen=()):
         """names from `name` up to NonLinearSearch following the first base that leads there"""
@@ -167,7 +199,7 @@ def search_classes(repo):
             raise TranslationError("chain of %s does not end in %s.__init__" % (name, ROOT_CLASS))
         if chain[-1]["super_kw"] or chain[-1]["forwards"]:
             raise TranslationError("%s.__init__ passes arguments to super().__init__" % ROOT_CLASS)
-        out.append({"name": name, "fields": fields or [], "chain": chain})
+        out.append({"name": name, "fields": fields or [], "chain": chain, "base_args": base_args})
     if not out:
         raise TranslationError("no concrete search class found")
     return out
@@ -196,6 +228,31 @@ def grid_id_uses_folder(repo):
     raise TranslationError("GridSearchOutput.id returns an unrecognised expression: %s" % src)
 
 
+FIT_MODEL = "autofit/database/model/fit.py"
+
+
+def info_variant(repo):
+    """how Fit.info's setter stores a value: 'plain' (value handed to the String column as it is) or
+    'containers-as-json' (dict/list/tuple values json-encoded first).  Fail closed on anything else."""
+    tree = ast.parse(open(os.path.join(repo, FIT_MODEL)).read())
+    cls = [n for n in tree.body if isinstance(n, ast.ClassDef) and n.name == "Fit"]
+    if len(cls) != 1:
+        raise TranslationError("class Fit not found in %s" % FIT_MODEL)
+    setters = [x for x in cls[0].body if isinstance(x, ast.FunctionDef) and x.name == "info"
+               and any(ast.unparse(d) == "info.setter" for d in x.decorator_list)]
+    if len(setters) != 1:
+        raise TranslationError("Fit.info setter not found")
+    src = ast.unparse(setters[0])
+    if "Info(key=key, value=value)" in src and "json.dumps" not in src:
+        return "plain"
+    if "json.dumps(value) if isinstance(value, (dict, list, tuple)) else value" in src:
+        return "containers-as-json"
+    raise TranslationError("Fit.info setter has an unrecognised body")
+
+
+INFO_VARIANT = {"v": "plain"}
+
+
 def generate(repo, outfile):
     classes = search_classes(repo)
     uf, src = grid_id_uses_folder(repo)
@@ -222,8 +279,8 @@ def generate(repo, outfile):
                 "true" if s["forwards"] else "false", _clist(s["pops"])))
         ident = "sc_" + c["name"]
         names.append(ident)
-        lines.append("Definition %s : search_class :=\n  {| sc_name := %s; sc_fields := %s;\n     sc_chain := [\n       %s ] |}." % (
-            ident, _cstr(c["name"]), _clist(c["fields"]), ";\n       ".join(sigs)))
+        lines.append("Definition %s : search_class :=\n  {| sc_name := %s; sc_fields := %s;\n     sc_chain := [\n       %s ];\n     sc_base_args := %s |}." % (
+            ident, _cstr(c["name"]), _clist(c["fields"]), ";\n       ".join(sigs), _clist(c["base_args"])))
         lines.append("")
     lines.append("Definition search_classes : list search_class := [%s]." % "; ".join(names))
     text = "\n".join(lines) + "\n"
@@ -387,6 +444,7 @@ def gen_script(rng, interrupt=None):
 
 
 def gen_fit(rng, idx, kind="single", real=None, allow_arith=False, plain=False):
+    plain = plain or kind == "grid"     # grid searches use plain model shapes (their cells inherit the shape)
     tag = rng.choice([None, "t1", "t1", "t2", "data_7"])
     prefix = rng.choice([None, "pp", "pp", "pp/qq"])
     grid = None
@@ -400,6 +458,10 @@ def gen_fit(rng, idx, kind="single", real=None, allow_arith=False, plain=False):
     if kind == "single" and real is None and rng.random() < 0.3:
         interrupt = rng.choice(["before_samples", "after_samples"])
     info = rng.choice([None, {}, {"k": "v"}, {"dataset": "d%d" % idx, "note": "x y"}])
+    if not plain and real is None and kind == "single" and rng.random() < 0.12:
+        # values that are not strings: scalars lose their type in the info table; containers cannot be stored
+        info = rng.choice([{"n": idx + 3, "x": 0.5, "flag": True}, {"exposure": -2.25, "none": None, "s": "t"},
+                           {"n": 7}, {"d": {"a": 1}, "k": "v"}, {"l": [1, 2]}])
     f = {
         "type": "grid" if kind == "grid" else "single",
         "name": "%s%d" % ("g" if kind == "grid" else "s", idx),
@@ -411,6 +473,9 @@ def gen_fit(rng, idx, kind="single", real=None, allow_arith=False, plain=False):
         "scripts": [gen_script(rng, interrupt)],
         "nfree": nfree, "arith": arith,
     }
+    if kind == "single" and real is None:
+        f["latent"] = rng.random() < 0.25
+        f["hdu"] = rng.random() < 0.25
     if kind == "grid":
         f["grid"] = grid
         ncell = 2 ** len(grid["shared"])
@@ -518,6 +583,54 @@ def gen_cases(ctx, classes):
         fits = [gen_fit(rng, 0, plain=True), gen_prefit_fit(rng, 1, st, resume=True)]
         fits[0]["scripts"][0]["interrupt"] = None
         scen.append({"kind": "scenario", "flavour": "dir", "fits": fits, "completed_only": False})
+    # (1e) info values that are not strings (recorded findings: type loss; containers abort the load)
+    import copy as _copy
+    for info in ([{"n": 3, "x": 0.5, "flag": True, "none": None, "s": "t"}, {"d": {"a": 1}, "l": [1, 2], "k": "v"}]
+                 + ([{"exposure": -2.25}, {"l": [1, 2]}, {"flag": False, "n": -1}] if thorough else [])):
+        f, g = gen_fit(rng, 0, plain=True), gen_fit(rng, 1, plain=True)
+        f["info"] = info
+        f["scripts"][0]["interrupt"] = None
+        f["n_analyses"] = 1
+        scen.append({"kind": "scenario", "flavour": "fits", "fits": [f, g], "completed_only": False, "shape": "info-values"})
+    # (1f) shapes of the model's branches that random generation does not reach
+    #  - a fit WITH analyses children lying in the directory twice: clean IntegrityError, nothing committed
+    f = gen_fit(rng, 0, plain=True)
+    f.update({"n_analyses": 2, "layout": "folder"})
+    f["scripts"][0]["interrupt"] = None
+    scen.append({"kind": "scenario", "flavour": "dir", "fits": [f, gen_fit(rng, 1, plain=True)], "completed_only": False,
+                 "copies": [{"fit": 0, "to": "copy"}], "expect": "IntegrityError-on-copy", "shape": "copy-with-children", "direct": False})
+    #  - two different fits written under ONE identifier (same search, model, tag; another name): "Fit already existed"
+    f = gen_fit(rng, 0, plain=True)
+    f["n_analyses"] = 1
+    g = _copy.deepcopy(f)
+    g["name"] = "other_name"
+    g["scripts"] = [gen_script(rng)]
+    g["layout"] = "folder"
+    scen.append({"kind": "scenario", "flavour": "dir", "fits": [f, g, gen_fit(rng, 2, plain=True)], "completed_only": False,
+                 "shape": "two-fits-one-identifier", "direct": False})
+    #  - completed_only with an unfinished grid search (its last cell was interrupted)
+    g = gen_fit(rng, 0, kind="grid")
+    for sc_ in g["scripts"]:
+        sc_["interrupt"] = None
+    g["scripts"][-1]["interrupt"] = "after_samples"
+    scen.append({"kind": "scenario", "flavour": "dir", "fits": [g, gen_fit(rng, 1, plain=True)], "completed_only": True,
+                 "shape": "unfinished-grid-completed-only"})
+    #  - two directories loaded one after the other into one database (the second finds fits already there)
+    for k in range(1 if not thorough else 4):
+        fa = [gen_fit(rng, i, plain=True, kind="grid" if (i == 0 and rng.random() < 0.5) else "single") for i in range(2)]
+        fb = [gen_fit(rng, i + 2, plain=True) for i in range(rng.randint(1, 2))]
+        for f in fa:
+            f["prefix"] = "A/" + (f["prefix"] or "p")
+        for f in fb:
+            f["prefix"] = "B/" + (f["prefix"] or "p")
+        if k % 2 == 1:
+            h = _copy.deepcopy(fa[-1]) if fa[-1]["type"] == "single" and fa[-1]["n_analyses"] == 1 else None
+            if h:
+                h["prefix"] = "B/again"
+                h["name"] = "again"
+                fb.append(h)      # same identifier as a fit of A: refreshed, not duplicated
+        scen.append({"kind": "scenario", "flavour": "dir", "fits": fa + fb, "completed_only": False, "two_dirs": True,
+                     "shape": "two-directories", "direct": False})
     # (2) directories with grid searches / real search classes / copies: CDir
     for k in range(nd):
         fits = []
@@ -586,6 +699,19 @@ def model_labels(spec):
     return out
 
 
+def fit_labels(f):
+    """labels of ONE fit spec (each label names a recorded finding class)"""
+    out = set(model_labels(f["model"])) | info_labels(f.get("info"))
+    if f["search"]["cls"] != "Scripted":
+        out.add("search-class:" + f["search"]["cls"])
+    pf = f.get("prefit")
+    if pf and pf.get("resume") and pf["stage"] in TRUNCATING:
+        out.add("resumed-fit-truncated-json")
+    if pf:
+        out -= info_labels(f.get("info"))     # the info of an interrupted pre-fit output never reaches the database
+    return out
+
+
 def case_classes(c):
     if c["kind"] == "settings":
         return ["search-class:" + c["cls"]]
@@ -594,19 +720,50 @@ def case_classes(c):
     out = set()
     tags = []
     for f in c["fits"]:
-        if f["search"]["cls"] != "Scripted":
-            out.add("search-class:" + f["search"]["cls"])
-        out |= model_labels(f["model"])
-        pf = f.get("prefit")
-        if pf and pf.get("resume") and pf["stage"] in TRUNCATING:
-            out.add("resumed-fit-truncated-json")
+        out |= fit_labels(f)
         if f["type"] == "grid":
             tags.append(f.get("tag"))
     if len(tags) != len(set(tags)):
         out.add("grid-searches-share-tag")
-    if c.get("copies"):
-        out.add("copied-folder")
     return sorted(out)
+
+
+# A failure is attributed to a finding class only when its MESSAGE is the one that class produces and,
+# for per-fit messages, the fit named in the message carries the label.  Correspondence failures are
+# never attributed: the model is faithful to the recorded defects too.
+EXPECTED_FAILURE = {
+    "model:fixed-component": (r"^fit written under ", True),
+    "model:arith-prior": (r"^fit written under |^add_directory raised KeyError", True),
+    "model:single-model-with-nested": (r"^add_directory raised KeyError", False),
+    "info:non-string-scalar": (r"^fit \w+: info ", True),
+    "info:container-value": (r"^add_directory raised ProgrammingError", False),
+    "search-class:Drawer": (r"Drawer: search settings cannot be read back|^add_directory raised TypeError", False),
+    "grid-searches-share-tag": (r"^add_directory raised IntegrityError", False),
+    "resumed-fit-truncated-json": (r"^add_directory raised JSONDecodeError", False),
+}
+
+
+def attributable(c, ro, msg):
+    """labels (of the case) that explain this oracle message"""
+    import re
+    if c["kind"] == "settings":
+        return [l for l in case_classes(c) if l in EXPECTED_FAILURE and re.search(EXPECTED_FAILURE[l][0], msg)]
+    out = []
+    ids = {}
+    for f, rec in zip(c["fits"], (ro or {}).get("fits", [])):
+        for key in (rec.get("identifier"), f["name"]):
+            if key:
+                ids.setdefault(key, set()).update(fit_labels(f))
+    m = re.match(r"^fit (?:written under )?(\w+)", msg)
+    named = ids.get(m.group(1), set()) if m else None
+    for l in case_classes(c):
+        pat = EXPECTED_FAILURE.get(l)
+        if not pat or not re.search(pat[0], msg):
+            continue
+        if msg.startswith("fit ") and (named is None or l not in named):
+            continue
+        out.append(l)
+    return out
 
 
 # ----- abstraction of implementation observations ----------------------------
@@ -617,6 +774,41 @@ def json_names(e):
 
 def info_digest(info):
     return digest({str(k): v for k, v in info.items()}) if info else None
+
+
+def held_value(v):
+    """what the `info` table (a String column under SQLite's TEXT affinity) gives back for a scalar"""
+    if isinstance(v, bool):
+        return "1" if v else "0"
+    if isinstance(v, int):
+        return str(v)
+    if isinstance(v, float):
+        return repr(v)          # the generator uses short dyadic values only: SQLite renders them the same way
+    if isinstance(v, (dict, list, tuple)):
+        return json.dumps(v)    # only reached in the 'containers-as-json' variant of Fit.info
+    return v                    # str, None
+
+
+def info_container(info):
+    """does the info dictionary hold a value the info table cannot take (code variant 'plain' only)?"""
+    return (INFO_VARIANT["v"] == "plain" and isinstance(info, dict)
+            and any(isinstance(v, (dict, list, tuple)) for v in info.values()))
+
+
+def info_held_digest(info):
+    if not info or not isinstance(info, dict) or info_container(info):
+        return info_digest(info) if isinstance(info, dict) else None
+    return info_digest({k: held_value(v) for k, v in info.items()})
+
+
+def info_labels(info):
+    out = set()
+    if isinstance(info, dict) and info:
+        if info_container(info):
+            out.add("info:container-value")
+        elif any(not isinstance(v, str) for v in info.values()):
+            out.add("info:non-string-scalar")
+    return out
 
 
 def kv_str(kv):
@@ -649,8 +841,10 @@ def folder_of(e):
         "reload_id": rc.get("id") or "",
         "model": digest(rc["model"]) if rc.get("model") is not None else (e.get("model_digest") or ""),
         "info": info_digest(e["info"]) if isinstance(e.get("info"), dict) else None,
+        "info_held": info_held_digest(e["info"]) if isinstance(e.get("info"), dict) else None,
         "samples": samples_of(e),
-        "load_error": rc.get("load_error") or (rc.get("exc") if rc.get("exc") not in (None, "TypeError") else None),
+        "load_error": rc.get("load_error") or (rc.get("exc") if rc.get("exc") not in (None, "TypeError") else None)
+                      or ("ProgrammingError" if info_container(e.get("info")) and e.get("metadata") else None),
         "jsons": json_names(e),
         "analyses": [sorted(a.get("json_digests", {}).keys()) for a in e.get("analyses", [])],
     }
@@ -695,10 +889,10 @@ def c_strs(l):
 def c_folder(f):
     return ("{| f_path := %s; f_metadata := %s; f_completed := %s; f_marker := %s; f_parent_file := %s; "
             "f_written_id := %s; f_class := %s; f_keys := %s; f_name := %s; f_tag := %s; f_reload_id := %s; "
-            "f_model := %s; f_info := %s; f_samples := %s; f_load_error := %s; f_jsons := %s; f_analyses := %s |}") % (
+            "f_model := %s; f_info := %s; f_info_held := %s; f_samples := %s; f_load_error := %s; f_jsons := %s; f_analyses := %s |}") % (
         c_strs(f["path"]), cbool(f["metadata"]), cbool(f["completed"]), c_ostr(f["marker"]), c_ostr(f["parent_file"]),
         cstr(f["written_id"]), cstr(f["cls"]), c_strs(f["keys"]), cstr(f["name"]), c_ostr(f["tag"]), cstr(f["reload_id"]),
-        cstr(f["model"]), c_ostr(f["info"]), c_samples(f["samples"]), c_ostr(f.get("load_error")), c_strs(f["jsons"]),
+        cstr(f["model"]), c_ostr(f["info"]), c_ostr(f.get("info_held")), c_samples(f["samples"]), c_ostr(f.get("load_error")), c_strs(f["jsons"]),
         clist([c_strs(a) for a in f["analyses"]]))
 
 
@@ -711,9 +905,10 @@ def c_row(r):
 
 
 def c_observed(sc):
+    rows = clist([c_row(row_of(f)) for f in sc.get("fits", [])])
     if sc.get("exc"):
-        return "(ObsRaised %s)" % cstr(sc["exc"])
-    return "(ObsLoaded %s)" % clist([c_row(row_of(f)) for f in sc["fits"]])
+        return "(ObsRaised %s %s)" % (cstr(sc["exc"]), rows)
+    return "(ObsLoaded %s)" % rows
 
 
 DUMMY_ROW = {"id": "MISSING", "name": None, "tag": None, "complete": None, "grid": False, "parent": None, "model": None,
@@ -738,21 +933,23 @@ def spec_of(f, rec, entry):
         "tag": f.get("tag"), "name": f["name"], "id": rec.get("identifier") or "",
         "cls": (entry or {}).get("search_cls") or "ScriptedSearch", "keys": (entry or {}).get("search_keys") or [],
         "reload_id": rc.get("id") or "",
-        "model": digest(rec["model"]), "info": info_digest(f.get("info")),
+        "model": digest(rec["model"]), "info": info_digest(f.get("info")), "info_held": info_held_digest(f.get("info")),
         "stored_model": digest(rc["model"]) if rc.get("model") is not None else digest(rec["model"]),
-        "load_error": rc.get("load_error"),
+        "load_error": rc.get("load_error") or ("ProgrammingError" if info_container(f.get("info")) else None),
         "samples": samples,
         "interrupt": ("(PreFit %s)" % STAGE_COQ[f["prefit"]["stage"]]) if f.get("prefit") else
                      {None: "NoInterrupt", "before_samples": "BeforeSamples", "after_samples": "AfterSamples"}[sc.get("interrupt")],
-        "extra": ["attr", "sub.deep"] if na == 1 else [], "analyses": [["attr", "sub.deep"]] * na if na > 1 else [],
+        "extra": (["attr_a0", "sub.deep"] + (["latent.samples_info"] if f.get("latent") and sc.get("interrupt") != "before_samples" else [])) if na == 1 else [],
+        # children in the order the analyses folders are listed (the order the scraper numbers them in)
+        "analyses": [["attr_a%s" % a["name"].split("_")[-1], "sub.deep"] for a in (entry or {}).get("analyses", [])] if na > 1 else [],
     }
 
 
 def c_spec(s):
     return ("{| fs_prefix := %s; fs_tag := %s; fs_name := %s; fs_id := %s; fs_class := %s; fs_keys := %s; fs_reload_id := %s; "
-            "fs_model := %s; fs_stored_model := %s; fs_load_error := %s; fs_info := %s; fs_samples := %s; fs_interrupt := %s; fs_extra_jsons := %s; fs_analyses := %s |}") % (
+            "fs_model := %s; fs_stored_model := %s; fs_load_error := %s; fs_info := %s; fs_info_held := %s; fs_samples := %s; fs_interrupt := %s; fs_extra_jsons := %s; fs_analyses := %s |}") % (
         c_strs(s["prefix"]), c_ostr(s["tag"]), cstr(s["name"]), cstr(s["id"]), cstr(s["cls"]), c_strs(s["keys"]), cstr(s["reload_id"]),
-        cstr(s["model"]), cstr(s["stored_model"]), c_ostr(s["load_error"]), c_ostr(s["info"]), clist([c_sample(x) for x in s["samples"]]), s["interrupt"], c_strs(s["extra"]),
+        cstr(s["model"]), cstr(s["stored_model"]), c_ostr(s["load_error"]), c_ostr(s["info"]), c_ostr(s["info_held"]), clist([c_sample(x) for x in s["samples"]]), s["interrupt"], c_strs(s["extra"]),
         clist([c_strs(a) for a in s["analyses"]]))
 
 
@@ -760,21 +957,41 @@ def spec_path(s):
     return s["prefix"] + ([s["tag"]] if s["tag"] is not None else []) + [s["name"], s["id"]]
 
 
+def c_paths(paths):
+    return clist([c_strs(p) for p in paths])
+
+
 def coq_case(c, r):
-    """Coq term of type `case` or None"""
+    """(Coq term of type `case` or None, reason why there is none)"""
     if c["kind"] == "settings":
         if r.get("missing") or r.get("stage") in ("construct", "to_dict"):
-            return None
-        return "CSettings %s %s %s" % (cstr(c["cls"]), c_strs(r.get("argument_keys", [])), cbool(r.get("stage") in ("ok", "identifier")))
+            return None, "settings:" + str(r.get("stage") or "missing")
+        return "CSettings %s %s %s" % (cstr(c["cls"]), c_strs(r.get("argument_keys", [])), cbool(r.get("stage") in ("ok", "identifier"))), None
     if c["kind"] != "scenario":
-        return None
+        return None, "not-a-case"
     entries = {e["rel"]: e for e in r["directory"]}
+    unfaithful = []
+    for f, rec in zip(c["fits"], r["fits"]):
+        if model_labels(f["model"]) & {"model:fixed-component", "model:arith-prior"} and rec.get("output_path"):
+            rel = rec["output_path"].split("/output/", 1)[-1].split("/")
+            unfaithful.append(rel)
+            unfaithful.append(["copy", rel[-1]])
+    if c.get("two_dirs"):
+        order = [p for p in r["scrape"]["walk_order"] if p in entries] + [p for p in entries if p not in r["scrape"]["walk_order"]]
+        dir_a = [folder_of(entries[p]) for p in order if p.startswith("A/")]
+        dir_b = [folder_of(entries[p]) for p in order if p.startswith("B/")]
+        for fl in dir_a + dir_b:
+            fl["path"] = fl["path"][1:]
+        return "CDir2 %s %s %s %s %s" % (cbool(c.get("completed_only", False)), clist([c_folder(x) for x in dir_a]),
+                                         clist([c_folder(x) for x in dir_b]), c_observed(r["scrape"]["first"]), c_observed(r["scrape"])), None
     if c["flavour"] == "fits" and not c.get("copies") and not any((f.get("prefit") or {}).get("resume") for f in c["fits"]):
         specs, found, direct = [], [], []
-        drows = {f["id"]: f for f in (r["direct"] or {}).get("fits", [])}
-        for f, rec in zip(c["fits"], r["fits"]):
+        dr = r.get("direct") or {}
+        drows = {f["id"]: f for f in dr.get("fits", [])}
+        druns = dr.get("fits_run", [])
+        for i, (f, rec) in enumerate(zip(c["fits"], r["fits"])):
             if rec.get("exc") or not rec.get("identifier"):
-                return None
+                return None, "fit-not-written"
             pre = f["prefix"].split("/") if f.get("prefix") else []
             rel = "/".join(pre + ([f["tag"]] if f.get("tag") is not None else []) + [f["name"], rec["identifier"]])
             e = entries.get(rel)
@@ -782,15 +999,19 @@ def coq_case(c, r):
             specs.append(s)
             found.append(c_folder(folder_of(e)) if e else c_folder(dict(folder_of({"rel": "MISSING", "metadata": False, "completed": False, "grid_marker": None, "parent_identifier": None}))))
             d = drows.get(rec["identifier"])
-            if f.get("n_analyses", 1) > 1 or f.get("prefit") or (r.get("direct") or {}).get("exc") or "model:arith-prior" in model_labels(f["model"]):
+            drun = druns[i] if i < len(druns) else {"skipped": True}
+            if (drun.get("skipped") or drun.get("exc") or f.get("prefit") or dr.get("exc")
+                    or fit_labels(f) & {"model:arith-prior", "info:container-value"}
+                    or (f.get("n_analyses", 1) > 1 and f["scripts"][0].get("interrupt"))):
                 direct.append("None")
             else:
                 direct.append("(Some %s)" % (c_row(row_of(d)) if d else c_row(DUMMY_ROW)))
         paths = ["/".join(spec_path(s)) for s in specs]
         walk = [paths.index(p) for p in r["scrape"]["walk_order"] if p in paths]
         walk += [i for i in range(len(paths)) if i not in walk]   # folders the aggregator did not visit (no metadata)
-        return "CFits %s %s %s %s %s %s" % (cbool(c.get("completed_only", False)), clist([c_spec(s) for s in specs]),
-                                            clist([cnat(i) for i in walk]), clist(found), c_observed(r["scrape"]), clist(direct))
+        return "CFits %s %s %s %s %s %s %s" % (cbool(c.get("completed_only", False)), clist([c_spec(s) for s in specs]),
+                                               clist([cnat(i) for i in walk]), clist(found), c_observed(r["scrape"]), clist(direct),
+                                               c_paths(unfaithful)), None
     # CDir: the directory as found by the independent inspection, in the aggregator's walk order
     order = [p for p in r["scrape"]["walk_order"] if p in entries]
     rest = [p for p in entries if p not in order]
@@ -798,10 +1019,10 @@ def coq_case(c, r):
     best = []
     for f in r["scrape"].get("fits", []):
         if f["is_grid_search"] and unique_best(f, r["scrape"]["fits"]):
-            b = f.get("best_fit")
-            best.append(cpair(cstr(f["id"]), c_ostr(b if isinstance(b, str) and not b.startswith("exc:") else None)))
-    return "CDir %s %s %s %s" % (cbool(c.get("completed_only", False)), clist([c_folder(x) for x in folders]),
-                                 c_observed(r["scrape"]), clist(best))
+            bf = f.get("best_fit")
+            best.append(cpair(cstr(f["id"]), c_ostr(bf if isinstance(bf, str) and not bf.startswith("exc:") else None)))
+    return "CDir %s %s %s %s %s" % (cbool(c.get("completed_only", False)), clist([c_folder(x) for x in folders]),
+                                    c_observed(r["scrape"]), clist(best), c_paths(unfaithful)), None
 
 
 def unique_best(gs, fits):
@@ -831,17 +1052,32 @@ def oracle_settings(c, r):
 
 
 def oracle_scenario(c, r):
-    """Direct statement of C11 on what the implementation wrote and loaded. Returns a message or None."""
+    """Direct statement of C11 on what the implementation wrote and loaded. Returns the list of violated
+    requirements (one message per fit folder / grid search / route comparison; empty = the property holds)."""
     sc = r["scrape"]
     co = bool(c.get("completed_only", False))
+    errs = []
     for f, rec in zip(c["fits"], r["fits"]):
         if rec.get("exc") and f["search"]["cls"] == "Scripted":
-            return "writing fit %s failed: %s %s" % (f["name"], rec["exc"], rec.get("msg"))
+            return ["writing fit %s failed: %s %s" % (f["name"], rec["exc"], rec.get("msg"))]
         if f.get("prefit") and not rec.get("interrupted"):
-            return "harness: the pre-fit fault of fit %s was not injected" % f["name"]
+            return ["harness: the pre-fit fault of fit %s was not injected" % f["name"]]
+    if c.get("expect") == "IntegrityError-on-copy":
+        # a fit WITH analyses children lies in the directory twice: add_directory's docstring excludes loading the
+        # same results twice; what is required is a clean failure -- the exception, and nothing committed
+        if sc.get("exc") != "IntegrityError":
+            return ["copied fit with analyses children: expected IntegrityError, got %s" % (sc.get("exc") or "a loaded database")]
+        if sc.get("fits"):
+            return ["add_directory raised but left %d fits committed" % len(sc["fits"])]
+        return []
+    if c.get("two_dirs") and (sc.get("first") or {}).get("exc"):
+        return ["add_directory (first directory) raised %s: %s" % (sc["first"]["exc"], sc["first"].get("msg", "")[:160])]
     if sc.get("exc"):
-        return "add_directory raised %s: %s" % (sc["exc"], sc.get("msg", "")[:160])
+        if sc.get("fits") and not c.get("two_dirs"):
+            errs.append("add_directory raised but left %d fits committed" % len(sc["fits"]))
+        return errs + ["add_directory raised %s: %s" % (sc["exc"], sc.get("msg", "")[:160])]
     rows = {f["id"]: f for f in sc["fits"]}
+    unfaithful = {"model:fixed-component", "model:arith-prior"}
     # the fits the CASE says are healthy must be there, whatever else lies in the directory; a fit whose
     # pre-fit output never completed is not a search fit and must not appear
     for f, rec in zip(c["fits"], r["fits"]):
@@ -849,21 +1085,21 @@ def oracle_scenario(c, r):
             continue
         pf = f.get("prefit")
         complete = f["scripts"][0].get("interrupt") is None and not pf
-        if not pf and (complete or not co) and not (model_labels(f["model"]) & {"model:fixed-component", "model:arith-prior"}):
+        if not pf and (complete or not co) and not (model_labels(f["model"]) & unfaithful):
             if rec["identifier"] not in rows:
-                return "healthy fit %s (%s) is missing from the database" % (f["name"], rec["identifier"])
+                errs.append("healthy fit %s (%s) is missing from the database" % (f["name"], rec["identifier"]))
         if pf and not pf.get("resume") and rec["identifier"] in rows:
-            return "fit %s, whose pre-fit output was interrupted at %s, appears in the database" % (f["name"], pf["stage"])
+            errs.append("fit %s, whose pre-fit output was interrupted at %s, appears in the database" % (f["name"], pf["stage"]))
     if len(rows) != len(sc["fits"]):
-        return "duplicate ids in the database"
+        errs.append("duplicate ids in the database")
     outs = [e for e in r["directory"] if e["metadata"] and (not co or e["completed"])]
     gss = [e for e in r["directory"] if e["grid_marker"] is not None and (not co or e["completed"])]
     seen = set()
     written = {}
     for e in outs:
-        wid = e.get("description_md5")
-        written.setdefault(wid, []).append(e)
-    for e in outs:
+        written.setdefault(e.get("description_md5"), []).append(e)
+
+    def check_folder(e):
         wid = e.get("description_md5")
         is_cell = e["parent_identifier"] is not None
         if not is_cell and e["folder"] != wid:
@@ -874,7 +1110,7 @@ def oracle_scenario(c, r):
             return "fit written under %s has no database fit with that id (recomputed id %s)" % (wid, rid)
         seen.add(wid)
         if len(written[wid]) > 1:
-            continue  # copies of one fit: one row, contents of either copy
+            return None  # several folders written under one identifier: one row (contents of either)
         if f["name"] != e.get("search_name") or f["unique_tag"] != e.get("search_tag"):
             return "fit %s: name/tag %r/%r but search.json has %r/%r" % (wid, f["name"], f["unique_tag"], e.get("search_name"), e.get("search_tag"))
         if bool(f["is_complete"]) != e["completed"]:
@@ -888,10 +1124,18 @@ def oracle_scenario(c, r):
         for nm, dg in e.get("json_digests", {}).items():
             if f["json_digest"].get(nm) != dg:
                 return "fit %s: json %s missing or different in the database" % (wid, nm)
-        for kind, dk, fk in (("pickle", "pickle_digests", "pickle_digest"), ("array", "array_digests", "array_digest")):
+        for kind, dk, fk in (("pickle", "pickle_digests", "pickle_digest"), ("array", "array_digests", "array_digest"),
+                             ("fits file", "hdu_digests", "hdus")):
             for nm, dg in e.get(dk, {}).items():
-                if f.get(fk, {}).get(nm) != dg:
+                if not isinstance(f.get(fk), dict) or f[fk].get(nm) != dg:
                     return "fit %s: %s %s missing or different in the database" % (wid, kind, nm)
+        if e.get("latent") is not None:
+            got = f.get("latent")
+            if not isinstance(got, list) or not got or any(x not in e["latent"] for x in got):
+                return "fit %s: latent samples of the directory are not in the database" % wid
+            top = max(unhex(x[1]) for x in e["latent"])
+            if not any(unhex(x[1]) == top for x in got):
+                return "fit %s: the maximum-likelihood latent sample is not in the database" % wid
         if e.get("samples"):
             want = [(csv_kv(e, q), q["ll"], q["lp"], q["w"]) for q in e["samples"]["rows"]]
             got = [(q["kv"], q["ll"], q["lp"], q["w"]) for q in f["samples"]] if isinstance(f["samples"], list) else f["samples"]
@@ -909,44 +1153,51 @@ def oracle_scenario(c, r):
         else:
             if f["samples"] is not None or f["instance"] is not None:
                 return "fit %s: database holds samples/instance the directory does not hold" % wid
-        # multi-analysis children
+        # multi-analysis children: one child per analyses folder, each holding that folder's files
         kids = [rows[k] for k in f["children"] if k in rows]
         if len(e["analyses"]) != len(kids):
             return "fit %s: %d analyses folders but %d child fits" % (wid, len(e["analyses"]), len(kids))
         if sorted(digest(a["json_digests"]) for a in e["analyses"]) != sorted(digest(k["json_digest"]) for k in kids):
             return "fit %s: child fits do not hold the analyses' files" % wid
+        return None
+
+    for e in outs:
+        m = check_folder(e)
+        if m:
+            errs.append(m)
     # nothing else that claims to be a search fit
     for f in sc["fits"]:
         if not f["is_grid_search"] and f["name"] is not None and f["id"] not in seen:
-            return "database fit %s corresponds to no search fit of the directory" % f["id"]
-    if co:
-        for e in r["directory"]:
-            if e["metadata"] and not e["completed"] and e.get("description_md5") in rows and len(written.get(e.get("description_md5"), [])) == 0:
-                return "incomplete fit %s loaded although completed_only" % e["rel"]
+            src = [e for e in outs if (e.get("recomputed") or {}).get("id") == f["id"]]
+            if not (src and src[0].get("description_md5") != f["id"]):   # (the other half of an id mismatch already reported)
+                errs.append("database fit %s corresponds to no search fit of the directory" % f["id"])
     # grid searches
     grows = [f for f in sc["fits"] if f["is_grid_search"]]
     if len(grows) != len(gss):
-        return "%d grid-search folders but %d grid-search fits" % (len(gss), len(grows))
-    if sorted(sc.get("grid_searches", [])) != sorted(f["id"] for f in grows):
-        return "aggregator.grid_searches() does not list the grid-search fits"
+        errs.append("%d grid-search folders but %d grid-search fits" % (len(gss), len(grows)))
+    if sorted(sc.get("grid_searches", [])) != sorted(f["id"] for f in grows) and not c.get("two_dirs"):
+        errs.append("aggregator.grid_searches() does not list the grid-search fits")
     used = set()
     for e in gss:
         cells = sorted(o.get("description_md5") for o in outs if (o["rel"] + "/").startswith(e["rel"] + "/"))
         cand = [g for g in grows if sorted(g["children"]) == cells and g["id"] not in used]
         if not cand:
-            return "grid search %s: no parent fit linked to exactly its %d cell fits" % (e["rel"], len(cells))
+            errs.append("grid search %s: no parent fit linked to exactly its %d cell fits" % (e["rel"], len(cells)))
+            continue
         g = cand[0]
         used.add(g["id"])
+        if g["id"] != e["folder"]:
+            errs.append("grid search %s: parent fit id %s is not its folder name" % (e["rel"], g["id"]))
         if bool(g["is_complete"]) != e["completed"]:
-            return "grid search %s: is_complete %r but .completed %s" % (e["rel"], g["is_complete"], e["completed"])
-        lls = [rows[k]["max_log_likelihood"] for k in cells]
-        if cells and all(x is not None for x in lls):
+            errs.append("grid search %s: is_complete %r but .completed %s" % (e["rel"], g["is_complete"], e["completed"]))
+        lls = [rows[k]["max_log_likelihood"] for k in cells if k in rows]
+        if cells and len(lls) == len(cells) and all(x is not None for x in lls):
             m = max(unhex(x) for x in lls)
             b = g.get("best_fit")
             if b not in rows or rows[b]["max_log_likelihood"] is None or unhex(rows[b]["max_log_likelihood"]) != m or b not in cells:
-                return "grid search %s: best fit %s is not a cell of highest likelihood" % (e["rel"], b)
-            if not any(x in cells and unhex(rows[x]["max_log_likelihood"]) == m for x in sc.get("best_fits", [])):
-                return "grid search %s: aggregator best_fits() misses its best cell" % e["rel"]
+                errs.append("grid search %s: best fit %s is not a cell of highest likelihood" % (e["rel"], b))
+            elif not c.get("two_dirs") and not any(x in cells and unhex(rows[x]["max_log_likelihood"]) == m for x in sc.get("best_fits", [])):
+                errs.append("grid search %s: aggregator best_fits() misses its best cell" % e["rel"])
     # agreement with the direct (session) route, scripted fits only
     dr = r.get("direct")
     if dr:
@@ -954,35 +1205,52 @@ def oracle_scenario(c, r):
         for f, rec, drec in zip(c["fits"], r["fits"], dr.get("fits_run", [])):
             if f["search"]["cls"] != "Scripted" or drec.get("exc") or drec.get("skipped") or dr.get("exc"):
                 continue
+            if fit_labels(f) & (unfaithful | {"info:container-value"}):
+                continue        # reported per folder above
             if f["type"] == "single":
                 if rec.get("identifier") != drec.get("identifier"):
-                    return "fit %s: identifier differs between routes" % f["name"]
+                    errs.append("fit %s: identifier differs between routes" % f["name"])
+                    continue
                 a, b = rows.get(rec["identifier"]), drows.get(rec["identifier"])
-                if co and a is None:
+                if (co and a is None) or len(written.get(rec["identifier"], [])) > 1:
                     continue
                 if a is None or b is None:
-                    return "fit %s: present in only one of the two databases" % f["name"]
-                for k in ("name", "unique_tag", "is_complete", "info", "model", "instance", "max_log_likelihood", "samples"):
+                    errs.append("fit %s: present in only one of the two databases" % f["name"])
+                    continue
+                keys = ["name", "unique_tag", "is_complete", "info", "model", "max_log_likelihood", "samples"]
+                if f.get("n_analyses", 1) == 1:
+                    keys.append("instance")
+                for k in keys:
                     if a[k] != b[k]:
-                        return "fit %s: %s differs between the scraped and the directly written database (%r vs %r)" % (f["name"], k, str(a[k])[:80], str(b[k])[:80])
+                        errs.append("fit %s: %s differs between the scraped and the directly written database (%r vs %r)" % (f["name"], k, str(a[k])[:80], str(b[k])[:80]))
+                        break
+                else:
+                    if f.get("n_analyses", 1) > 1 and a["samples"] is not None and a["instance"] != b["instance"]:
+                        errs.append("fit %s: instance differs between the scraped and the directly written database" % f["name"])
             else:
                 ca = {x["identifier"] for x in rec.get("cells", [])}
                 cb = {x["identifier"] for x in drec.get("cells", [])}
                 if ca != cb:
-                    return "grid search %s: cell identifiers differ between routes" % f["name"]
+                    errs.append("grid search %s: cell identifiers differ between routes" % f["name"])
+                    continue
                 pb = drows.get(drec.get("identifier"))
                 if pb is not None and not co:
                     ga = [g for g in grows if set(g["children"]) == set(pb["children"])]
                     if not ga:
-                        return "grid search %s: scraped parent and directly written parent link different cells" % f["name"]
+                        errs.append("grid search %s: scraped parent and directly written parent link different cells" % f["name"])
+                        continue
+                    if ga[0]["id"] != pb["id"]:
+                        errs.append("grid search %s: parent id differs between routes (%s vs %s)" % (f["name"], ga[0]["id"], pb["id"]))
                     for k in ca:
                         a, b = rows.get(k), drows.get(k)
                         if a is None or b is None:
-                            return "grid cell %s present in only one database" % k
+                            errs.append("grid cell %s present in only one database" % k)
+                            continue
                         for kk in ("name", "unique_tag", "is_complete", "info", "model", "instance", "max_log_likelihood"):
                             if a[kk] != b[kk]:
-                                return "grid cell %s: %s differs between routes" % (k, kk)
-    return None
+                                errs.append("grid cell %s: %s differs between routes" % (k, kk))
+                                break
+    return errs
 
 
 def nontrivial(c, r):
@@ -1022,11 +1290,20 @@ def run(ctx):
         "theorems about scrape assume distinct identifiers (NoDup) and readable search settings; the cases outside are covered by the "
         "_refuted witnesses and by correspondence only",
         "best fit of a grid search is stated as: a linked cell whose likelihood is maximal (ties: any)",
+        "session route: the parent row of a fit with combined analyses is compared; its child fits are out of scope (a session "
+        "creates one child named 'analyses/analysis_0' with its own identifier, the scraper one '<id>_<i>' per analyses folder); "
+        "path_prefix is not compared (a scraped fit has none)",
+        "known-finding classes are attributed per oracle message (pattern of the class and, for per-fit messages, the fit carrying the "
+        "label); correspondence disagreements are never attributed to a finding",
+        "Emcee/Zeus/Nautilus/UltraNest/DynestyDynamic are covered by the settings round trip only (Emcee's fit raises IndexError in "
+        "emcee.autocorr in this environment; the others are not installed)",
     ]
     # 1. translator
     try:
         info = regenerate()
-        ctx.translated = {"gs_id_uses_folder": {"source": info["gs_id_source"], "line": 0}}
+        INFO_VARIANT["v"] = info_variant(common.REPO)
+        ctx.translated = {"gs_id_uses_folder": {"source": info["gs_id_source"], "line": 0},
+                          "fit_info_setter": {"source": INFO_VARIANT["v"], "line": 0}}
         for cl in info["classes"]:
             ctx.translated["sc_" + cl["name"]] = {"source": " -> ".join("%s(%s)" % (s["cls"], ",".join(s["super_kw"])) for s in cl["chain"])[:300],
                                                    "line": cl["chain"][0]["line"]}
@@ -1035,6 +1312,7 @@ def run(ctx):
         classes = [cl["name"] for cl in info["classes"]]
         ctx.notes["code_variant"] = {
             "grid_search_id": "folder name (C11_grid_fixed applies)" if info["gs_id_uses_folder"] else "marker text (C11_grid_partial applies; C11_grid_refuted witnesses the collision)",
+            "fit_info_setter": INFO_VARIANT["v"],
             "drawer_pops_number_of_cores": any(cl["name"] == "Drawer" and "number_of_cores" in cl["chain"][0]["pops"] for cl in info["classes"]),
         }
     except TranslationError as e:
@@ -1087,14 +1365,15 @@ def run(ctx):
             ctx.count_case(c, False, c["kind"])
             ctx.oracle["cases"] += 1
             ctx.oracle["failures"] += 1
-            ctx.failure("oracle", "driver raised %s: %s" % (r["exc"], r.get("msg")), c, classes=classes_, impl=r.get("tb"))
+            ctx.failure("oracle", "driver raised %s: %s" % (r["exc"], r.get("msg")), c, classes=[], impl=r.get("tb"))
             continue
         ro = r["ok"]
         ctx.count_case(c, nontrivial(c, ro), c["kind"] if c["kind"] == "settings" else "scenario:" + c["flavour"])
         ctx.oracle["cases"] += 1
         if c["kind"] == "settings":
             ctx.hist("settings_class", c["cls"])
-            msg = oracle_settings(c, ro)
+            m1 = oracle_settings(c, ro)
+            msgs = [m1] if m1 else []
         else:
             for f in c["fits"]:
                 ctx.hist("fit_type", f["type"])
@@ -1103,20 +1382,27 @@ def run(ctx):
                 ctx.hist("interrupt", f["scripts"][0].get("interrupt"))
                 ctx.hist("n_analyses", f.get("n_analyses", 1))
                 ctx.hist("tag", "none" if f.get("tag") is None else "set")
+                ctx.hist("prefit", (f.get("prefit") or {}).get("stage"))
+                ctx.hist("info_kind", "none" if not f.get("info") else (sorted(info_labels(f["info"])) or ["strings"])[0])
+                for lb in sorted(fit_labels(f)):
+                    ctx.hist("finding_class", lb)
             ctx.hist("completed_only", bool(c.get("completed_only")))
             ctx.hist("folders", len(ro.get("directory", [])))
-            msg = oracle_scenario(c, ro)
-        if msg:
+            ctx.hist("scenario_shape", c.get("shape", "random"))
+            msgs = oracle_scenario(c, ro)
+        for msg in msgs:
             ctx.oracle["failures"] += 1
-            ctx.failure("oracle", msg, c, classes=classes_, impl=summary(ro))
+            ctx.failure("oracle", msg, c, classes=attributable(c, ro, msg), impl=summary(ro))
         try:
-            cc = coq_case(c, ro)
+            cc, why = coq_case(c, ro)
         except Exception as e:  # noqa
-            cc = None
+            cc, why = None, "abstraction-error"
             ctx.obligation("abstraction:%d" % i, "harness", False, "%s: %s" % (type(e).__name__, e))
         if cc:
             coq_cases.append(cc)
-            coq_idx.append((i, msg))
+            coq_idx.append((i, bool(msgs)))
+        else:
+            ctx.hist("no_correspondence_term", why)
         if i % 9 == 0:
             ctx.sample({"case": c if c["kind"] == "settings" else {"kind": "scenario", "flavour": c["flavour"],
                                                                       "fits": [{k: f[k] for k in ("type", "name", "tag", "prefix", "search", "layout", "n_analyses")} for f in c["fits"]]}},
@@ -1132,9 +1418,10 @@ def run(ctx):
                 if os.environ.get("C11_DEBUG_DIR"):
                     with open(os.path.join(os.environ["C11_DEBUG_DIR"], "term_%d.v" % b), "w") as fh:
                         fh.write(hdr + "\nDefinition the_case : case := " + coq_cases[b] + ".\n")
+                # never attributed to a finding class: the model is faithful to the recorded defects as well
                 ctx.failure("correspondence", "model and implementation disagree on a %s case" % c["kind"], c,
-                            classes=case_classes(c), impl=summary(results[i].get("ok")), model=coq_cases[b][:3000],
-                            broken={"kind": "correspondence", "name": "C11.check_case"}, found_input=msg is not None)
+                            classes=[], impl=summary(results[i].get("ok")), model=coq_cases[b][:3000],
+                            broken={"kind": "correspondence", "name": "C11.check_case"}, found_input=bool(msg))
     else:
         ctx.obligation("correspondence:cases", "correspondence", False, "Model.vo / Gen.vo not built")
 
@@ -1155,7 +1442,9 @@ MANIFEST = {
     "text": "Coq 8.16 model of (a) reading a search's persisted settings back, over constructor signatures regenerated from the source of "
             "every search class, and (b) Scraper.scrape over an abstract output directory (fit folders, analyses children, grid-search "
             "parents, completed_only, existing rows, primary-key conflicts) with universally quantified theorems (closed form of the loaded "
-            "database under distinct identifiers; one row per fit folder holding its model/instance/samples/flag/info; grid parents linked "
+            "database under distinct identifiers; one row per fit folder holding its model/instance/samples/flag/info, id = folder name under "
+            "an explicit faithful-reload hypothesis that the correspondence evaluates per folder; every generated search class reads back for "
+            "every subset of its persisted-key universe; a second load keeps the first; grid parents linked "
             "to exactly their cells with a maximal-likelihood best fit; agreement with the session route; a fit interrupted anywhere inside "
             "save_all leaves the load unchanged), _refuted witnesses for the two "
             "defects of the pinned code, plus vm_compute correspondence with real fits written and loaded by the running code and a "
